@@ -47,6 +47,12 @@ def explicit_causes(ex, s):
     for t in getattr(s, 'soft_faults', []):
         # one write of the server fails: a cause as soon as the server writes (never certain)
         out.append((t, None, 'ws-fail', None))
+    for att in s.upg_attempts:
+        # a handshake completed on an upgrade socket that had failed or that the client had
+        # closed: the session moves to a dead WebSocket
+        c = att['conn']
+        if (c.failed or c.peer_closed) and [f for _, f in att['frames']][:2] == ['2probe', '5']:
+            out.append((att['t'], None, 'ws-fail', None))
     listed = [c.get('call') for c in s.causes]
     for c in ex.world.calls:
         if c.name == 'disconnect' and c.args == () and c not in listed:
